@@ -1,4 +1,5 @@
 import SMV.Props.C01
+import SMV.Lemmas.NoSends
 /-!
 # C14 — Event results come only from before/on return values, by the documented rule
 
@@ -82,5 +83,18 @@ theorem orFirst_sentinel (r : Option Res) : orFirst none r = r := rfl
 theorem orFirst_keeps (f : Res) (r : Option Res) : orFirst (some f) r = some f := rfl
 
 example : unwrap ([] : List Val) = .none ∧ unwrap [0] = .one 0 ∧ unwrap [0, 7] = .many [0, 7] := ⟨rfl, rfl, rfl⟩
+
+/-- **C14 (any processing mode).** For a machine whose callbacks send no events the result of an executed
+transition is the same for every nested-send handler (`rtc=False` included): the unwrap rule applied to the
+applicable `before` results followed by the applicable `on` results. -/
+theorem C14_result_any {m : Machine} {t : Trigger} {act : CbId → Act} (B : Beh m t act) (hs : NoSends m) (h : Nested)
+    (tr : Transn) (hv : firstRaise act tr.validators = none)
+    (hg : ∀ p ∈ tr.conds, (act p.1).raises = none)
+    (hp : guardsPass m act tr.conds = true)
+    (ha : ∀ cb ∈ actionCbs m t.event tr, (act cb).raises = none) (c : Cfg) :
+    (activate h m t tr c).2 =
+      .ok (some (unwrap (((applicable t.event tr.before).map fun cb => rtcRet m (act cb)) ++
+                         ((applicable t.event tr.on).map fun cb => rtcRet m (act cb))))) := by
+  rw [activate_any hs h]; exact C14_result B tr hv hg hp ha c
 
 end SMV
